@@ -7,6 +7,7 @@ CONFIGS = {
         ('month', ['m2020_1', 'ms2020_1', 'sm2020_01', 'm2020_2', 'm2021_1', 'y2020'], ['x2', 'y125', 'x20p10'], 3),
         ('day', ['d2020_1_15', 'sd2020_1_15', 'd2020_1_1', 'd2021_2_1', 'none'], ['x4', 'y5', 'xx'], 3),
         ('const', ['none', 'y2020', 'd2020_1_1'], ['x2', 'y5', 'y125', 'xx', 'empty'], 4),
+        ('inexact', ['y2020', 'y2021'], ['x12', 'y85', 'x4', 'x4ybad', 'y5'], 4),
     ],
     'thorough': [
         ('year', ['y2020', 'sy2020', 'y2021', 'none', 'y0', 'sybad'], ['x2', 'x4', 'y5', 'x2y5', 'y125'], 5),
@@ -15,6 +16,7 @@ CONFIGS = {
         ('day', ['d2020_1_15', 'sd2020_1_15', 'd2020_1_1', 'd2021_2_1', 'none', 'sdbad', 's4', 'flt'],
          ['x4', 'y5', 'xx', 'xbad0'], 4),
         ('const', ['none', 'y2020', 'd2020_1_1', 'm2020_1'], ['x2', 'y5', 'y125', 'xx', 'empty', 'bident'], 5),
+        ('inexact', ['y2020', 'y2021', 'none'], ['x12', 'y85', 'x4', 'x4ybad', 'y5', 'y125'], 5),
     ]}
 
 
@@ -25,7 +27,7 @@ def run(ctx):
                 'every transition of the TLC state graph executed on a real MoneyConverter; after each step ALL 63 '
                 'lookups (9 ordered currency pairs x 6 dates + default date): get_rate value, direction, None, and '
                 'converter(money, currency, date) = amount x reported rate are compared with the specification.')
-    ctx.assumptions = ['rates chosen exactly representable in 6 decimals (the rounding of rates is C09)']
+    ctx.assumptions = ['where the exact quotient has more than six decimals the reported rate must be its C09 normal form, rounded once (harness-side comparison)']
     for name, sps, sls, steps in CONFIGS[ctx.tier]:
         mconvcheck.run_config(ctx, name, sps, sls, steps)
 
